@@ -34,7 +34,7 @@ func verifC20run(p *vProfile) {
 			return
 		}
 		e := r.execs[len(r.cbs)-1]
-		h.assert("C20.runtime", ci.Runtime == time.Duration(e.tExit-e.tEnter))
+		h.assert("C20.runtime", !w.badClock && ci.Runtime == time.Duration(e.tExit-e.tEnter))
 		switch e.outcome {
 		case vOK:
 			h.assert("C20.error", ci.Error == nil)
@@ -59,6 +59,7 @@ func verifC20run(p *vProfile) {
 	}
 	for _, step := range h.skeleton() {
 		h.apply(w, step())
+		h.assert("C20.runtime", !w.badClock)
 		for _, r := range w.regs {
 			if r.f.callback {
 				h.assert("C20.count", len(r.cbs) == len(r.execs))
